@@ -23,7 +23,12 @@ pub fn run(case: &Value) -> Value {
         .iter()
         .map(|d| type_map.contains_module(ModuleId::Directory(qmldir::normalize_path(d).as_ref())))
         .collect();
-    let ctx = BuildContext::prepare(&type_map, FileNameRules::default(), DynamicBindingHandling::Generate).unwrap();
+    let mode = match case["mode"].as_str().unwrap_or("generate") {
+        "reject" => DynamicBindingHandling::Reject,
+        "omit" => DynamicBindingHandling::Omit,
+        _ => DynamicBindingHandling::Generate,
+    };
+    let ctx = BuildContext::prepare(&type_map, FileNameRules::default(), mode).unwrap();
     let mut docs = Vec::new();
     for p in &sources {
         let doc = match docs_cache.get(p) {
